@@ -403,6 +403,21 @@ def r15_4(ctx: Ctx):
     rets = [r for r in body_walk(fr.node) if isinstance(r, ast.Return)]
     st_c = INCONCLUSIVE
     why = "cut not recognised"
+    early = None
+    if len(rets) > 1:
+        # a special case in front of the cut: `if len(nodes) < 3: return [root]` answers without applying the definition
+        from ..core import parents_map
+
+        par_ = parents_map(fr.node)
+        main = [r for r in rets if isinstance(r.value, (ast.ListComp, ast.Name))]
+        for r in rets:
+            q = par_.get(id(r))
+            if isinstance(q, ast.If) and r in q.body and r is not (main[-1] if main else None):
+                t_ = canon(q.test, defs)
+                if re.search(r"len\(|\.n\b|\.size\b", t_) and isinstance(r.value, (ast.List, ast.Call, ast.Subscript)):
+                    early = (q, r)
+        if early is not None:
+            rets = [r for r in rets if r is not early[1]]
     rv = rets[0].value if len(rets) == 1 else None
     while isinstance(rv, ast.Name) and len(defs.get(rv.id, [])) == 1:
         rv = defs[rv.id][0]
@@ -479,6 +494,8 @@ def r15_4(ctx: Ctx):
             else:
                 why = f"cannot relate threshold `{rt[:100]}` to mean(finite distances) x distance_factor"
     obs.append(ctx.ob("R15.4", fr, rets[0] if rets else fr.node, status=st_c, detail="seed iff distance > mean(finite distances) x distance_factor (x correction)" if st_c == OK else f"_find_root_nodes: {why}", construct="cut"))
+    if early is not None:
+        obs.append(ctx.ob("R15.4", fr, early[0], status=VIOLATION, detail=f"_find_root_nodes answers `{norm(early[1].value)[:60]}` whenever `{norm(early[0].test)}`, without applying the cut: for such populations the individuals whose distance exceeds factor x mean (with a factor below 1 already the second of two) are not returned", construct="cut-special-case"))
     cl = nbc.methods["cluster"]
     calls = [norm(c.func) for c in body_walk(cl.node) if isinstance(c, ast.Call)]
     okcl = f"{cl.self_name()}._prepare_spanning_tree" in calls and f"{cl.self_name()}._find_root_nodes" in calls
@@ -525,4 +542,43 @@ def r15_7(ctx: Ctx):
     return obs
 
 
-RULES = [("R15.1", r15_1, 4), ("R15.2", r15_2, 1), ("R15.3", r15_3, 5), ("R15.4", r15_4, 4), ("R15.5", r15_5, 2), ("R15.7", r15_7, 5)]
+def r15_8(ctx: Ctx):
+    """R15.8 every kept individual becomes a node of the spanning tree: inside the loop of `_prepare_spanning_tree` the node is
+    created on every path. A node skipped under a test on the distance (`isclose(distance, 0)`, `distance < eps`) drops
+    individuals by an ABSOLUTE tolerance: the result then changes under a uniform scaling of the genomes."""
+    from ..core import parents_map
+
+    nbc = ctx.prog.cls("NearestBetterClustering")
+    ps = nbc.methods["_prepare_spanning_tree"]
+    par = parents_map(ps.node)
+    loops = [n for n in body_walk(ps.node) if isinstance(n, ast.For)]
+    creates = [c for lp in loops for c in ast.walk(lp) if isinstance(c, ast.Call) and isinstance(c.func, ast.Attribute) and c.func.attr == "create_node"]
+    if not creates:
+        raise AnalysisError("_prepare_spanning_tree no longer creates nodes in a loop")
+    obs = []
+    for c in creates:
+        conds = []
+        cur = c
+        while id(cur) in par and not isinstance(par[id(cur)], ast.For):
+            q = par[id(cur)]
+            if isinstance(q, ast.If):
+                conds.append(q.test)
+            cur = q
+        lp = par.get(id(cur))
+        conts = [x for x in ast.walk(lp) if isinstance(x, ast.Continue)] if isinstance(lp, ast.For) else []
+        for x in conts:
+            q = par.get(id(x))
+            while q is not None and not isinstance(q, ast.If) and q is not lp:
+                q = par.get(id(q))
+            if isinstance(q, ast.If) and not isinstance(par.get(id(x)), ast.ExceptHandler):
+                conds.append(q.test)
+        if not conds:
+            obs.append(ctx.ob("R15.8", ps, c, detail="a node is created for every individual of the loop", construct="node-per-individual"))
+            continue
+        t = conds[0]
+        tol = any(isinstance(y, ast.Call) and norm(y.func).split(".")[-1] in ("isclose", "allclose") for y in ast.walk(t)) or (any(isinstance(y, ast.Constant) and isinstance(y.value, float) for y in ast.walk(t)) and any(isinstance(y, ast.Name) and "dist" in y.id for y in ast.walk(t)))
+        obs.append(ctx.ob("R15.8", ps, t, status=VIOLATION if tol else INCONCLUSIVE, detail=f"an individual gets no node of the spanning tree under `{norm(t)[:70]}`" + (": the test uses an absolute tolerance on a distance, so tightly clustered (or uniformly scaled-down) populations lose individuals - and with them seeds and terms of the mean distance - that the same population at another scale keeps" if tol else ""), construct="node-per-individual"))
+    return obs
+
+
+RULES = [("R15.1", r15_1, 4), ("R15.2", r15_2, 1), ("R15.3", r15_3, 5), ("R15.4", r15_4, 4), ("R15.5", r15_5, 2), ("R15.7", r15_7, 5), ("R15.8", r15_8, 1)]
